@@ -157,7 +157,7 @@ PROPS["C11"] = {
 }
 
 PROPS["C13"] = {
-    "kani": ["c13_octree"],
+    "kani": ["c13_octree", "c13_quantize"],
     "verus": ["kdtree", "octleaf", "octprune"],
     "technique": "Verus: recursive contracts on k-d tree construction (build_rec establishes the k-d invariant over exactly the palette entries) and on the branch-and-bound search, composed through ColorPalette::{new,find} into exact nearest-colour lookup for every palette and query (unbounded); Kani/CBMC full-domain harnesses on octree path/summary/error arithmetic; Verus on leaf accumulation",
     "level_text": "Proved (Verus, every palette length incl. duplicates and clustered values, every query colour): KDTree::new's build_rec appends |colors| nodes, leaves earlier nodes untouched, and the subtree rooted at the last node "
@@ -166,6 +166,9 @@ PROPS["C13"] = {
                   "composed: ColorPalette::new(colors) is None iff colors is empty, otherwise a palette p with p.colors == colors, and p.find(q) returns (i, c) with i < |colors|, c's rgb == colors[i]'s rgb, alpha 255, and "
                   "d2(q, colors[i]) <= d2(q, colors[k]) for every k. Proved (Kani, complete): OcTreePath yields the 8 MSB-first child indices; "
                   "OcTreeInfo::join is a commutative monoid; ColorError::add clamps to 0..=255. Proved (Verus): leaf accumulation keeps acc <= 255*count without overflow and to_rgba is the per-channel floor of the mean, always a byte. "
+                  "Image::quantize's pixel loop (Kani, bounded stand-ins on 1x2 / 2x1 / 1x1 images with symbolic pixels; palette construction stubbed by a fixed two-colour palette, ColorPalette::find replaced by its Verus-proved contract, alpha compositing by a marker): "
+                  "no panic (the two error rows are indexed in range for wide and tall images), an index image of the image's size, one lookup per pixel in row-major order whose answer is what is stored, entries < palette size, "
+                  "the colour looked up is the pixel composited over the background (compositing happens before the diffused error is added), colours that are in the palette are reproduced exactly with and without dithering. "
                   "Proved (Verus, unit octprune): OcTree::prune_until(n) returns with the leaf summary <= max(n, 8) and leaves a tree that already fits completely untouched (the tree-level half of losslessness). "
                   "That the leaf summary equals the real number of leaves (insert/prune/build_palette), sampling and dithering order are NOT decided.",
     "level_note": "Assumed: slice::sort_by_key sorts by the key and permutes (its std contract, N8); the iterator chain iter().map(to_rgb).enumerate().collect() yields (k, colors[k].rgb) (N8); rasterize::RGBA as an opaque stand-in (N18). Not under contract: OcTree::{insert,prune_until,build_palette}, ColorPalette::from_image, Image::quantize loops.",
@@ -175,7 +178,8 @@ PROPS["C13"] = {
         "i32::pow(2) on channel differences specified as x*x; rasterize::RGBA replaced by an opaque stand-in with the contract of new/to_rgb (N18)",
         "OcTree::prune_until: termination of the pruning loop is not verified (exec_allows_no_decreases_clause); OcTree::prune itself carries no contract and none is assumed",
         "OcTreeLeaf::to_rgba is called on leaves with color_count > 0 (precondition; leaves in the tree are created by from_rgba)",
-        "palette bounds (1..=max(requested,8)), index-image validity, losslessness for small colour counts, sampling rule and Floyd-Steinberg diffusion order: not under contract",
+        "quantize harnesses: #[tracing::instrument] attributes / tracing log statements are removed from src/image.rs in the scratch copy (normalisation K1: logging only; kani-compiler 0.68 crashes on code reached from tracing's callsite registration)",
+        "palette bounds (1..=max(requested,8)) beyond prune_until's own guarantee, sampling rule, Floyd-Steinberg weights and images larger than two pixels: not under contract",
     ],
 }
 
